@@ -388,3 +388,34 @@ Proof.
   split; [|vm_compute; split; reflexivity].
   split; [cbn; lia|]. split; [repeat constructor|]. repeat constructor; cbn; discriminate.
 Qed.
+
+(* ------------------------------------------------------------------ the access decision: every schedule *)
+From Fabio Require Import Model.Access Model.AccessC06.
+
+Definition ac_ok (pip : str -> option ipaddr) (sh : str -> option str) (r : rules) (l : ac_local) : Prop :=
+  match ac_verdict l with None => True | Some v => v = ac_alone pip sh r (ac_rq l) end.
+
+(* access_every_schedule: any number of requests against one target, EVERY schedule: the rule map is never
+   written and the verdict each request receives is the access function of that request alone - whatever
+   other requests (same peer, other X-Forwarded-For; same X-Forwarded-For, other peer) ran before or meanwhile *)
+Theorem access_every_schedule_l : forall pip sh sched r ts, Forall (ac_ok pip sh r) ts ->
+  fst (run (ac_step pip sh) sched r ts) = r /\ Forall (ac_ok pip sh r) (snd (run (ac_step pip sh) sched r ts)).
+Proof.
+  intros pip sh sched. induction sched as [|i sched IH]; intros r ts H; cbn [run]; [split; [reflexivity|assumption]|].
+  unfold step1. destruct (nth_error ts i) as [l|] eqn:E; [|apply IH; assumption].
+  assert (Hl : ac_ok pip sh r l) by (eapply (proj1 (Forall_forall _ _) H); eapply nth_error_In; eassumption).
+  unfold ac_step. destruct (ac_verdict l) as [v|] eqn:Ev.
+  - apply IH. apply Forall_upd; assumption.
+  - apply IH. apply Forall_upd; [assumption|]. unfold ac_ok. cbn. reflexivity.
+Qed.
+
+Theorem access_every_schedule_results_l : forall pip sh sched r reqs,
+  let res := run (ac_step pip sh) sched r (map ac_init reqs) in
+  fst res = r /\ Forall (fun l => forall v, ac_verdict l = Some v -> v = ac_alone pip sh r (ac_rq l)) (snd res).
+Proof.
+  intros pip sh sched r reqs. cbv zeta.
+  assert (H : Forall (ac_ok pip sh r) (map ac_init reqs)).
+  { apply Forall_forall. intros x Hx. apply in_map_iff in Hx. destruct Hx as [q [<- _]]. exact I. }
+  destruct (access_every_schedule_l pip sh sched r _ H) as [A B]. split; [assumption|].
+  eapply Forall_impl; [|exact B]. intros l Hl v Hv. unfold ac_ok in Hl. rewrite Hv in Hl. assumption.
+Qed.
